@@ -281,6 +281,17 @@ impl Compressor for Lz4Compressor {
     ) -> Result<Vec<u8>> {
         #[cfg(feature = "lz4")]
         {
+            // The 4-byte size prefix is untrusted: lz4_flex allocates it up front. An LZ4
+            // block cannot expand by more than a factor of 255 (each extra length byte adds
+            // at most 255 output bytes), so a larger claim is rejected before allocating.
+            if data.len() >= 4 {
+                let declared = u32::from_le_bytes([data[0], data[1], data[2], data[3]]) as usize;
+                if declared > (data.len() - 4).saturating_mul(255).saturating_add(64) {
+                    return Err(ZiporaError::compression(
+                        "LZ4 decompression failed: declared size exceeds what the block can hold",
+                    ));
+                }
+            }
             lz4_flex::decompress_size_prepended(data)
                 .map_err(|e| ZiporaError::compression(&format!("LZ4 decompression failed: {}", e)))
         }
